@@ -1,6 +1,5 @@
-\* C11 quick A: every module graph over 3 modules (<= 2 requires each; form and
-\* load-time bump of an edge fixed by its position), every form of requiring
-\* the first module followed by the bumps it makes possible
+\* C11 thorough: every module graph over 3 modules, every importer program of
+\* <= 2 commands over all forms
 CONSTANTS
   Interps = {"i1"}
   UnwindOnFailure = TRUE
@@ -11,7 +10,7 @@ CONSTANTS
   MaxCtr = 1
   LoadCap = 2
   MaxReq = 2
-  CmdsOf <- C11Entry
+  CmdsOf <- C11Cmds
   Export = TRUE
 SPECIFICATION Spec
 INVARIANT TypeOK
